@@ -54,6 +54,7 @@ type rigConf struct {
 	Files        []rigFile     `json:"files"`
 	Threads      int           `json:"threads"`
 	BinSize      int           `json:"bin_size"`
+	ChunkSize    int           `json:"chunk_size,omitempty"` // tag option chunk-size (0: chunks as large as a payload)
 	Ordered      bool          `json:"ordered"`
 	Delete       bool          `json:"delete"`
 	OneShot      bool          `json:"one_shot"` // graceful stop right after start (as main does without --loop)
@@ -491,7 +492,7 @@ func (g *gkWrap) Ready() bool {
 
 func (r *rig) sourceConf() *sts.SourceConf {
 	c := r.conf
-	tag := &sts.TagConf{Method: sts.MethodHTTP, Delete: c.Delete, DeleteDelay: c.DeleteDelay}
+	tag := &sts.TagConf{Method: sts.MethodHTTP, Delete: c.Delete, DeleteDelay: c.DeleteDelay, ChunkSize: units.Base2Bytes(c.ChunkSize)}
 	if c.Ordered {
 		tag.Order = sts.OrderFIFO
 	} else {
